@@ -593,6 +593,19 @@ impl World {
                 "pending".into()
             }
             Pushed::Ready(d) => {
+                // monitor: `push` may only report an error the OS produced for THIS operation.  On io_uring the
+                // operation has not even been submitted when `push` returns, so any `Ready(Err)` is made up by
+                // the driver; on the polling driver the only immediate failure of these cases is epoll refusing
+                // a regular file (`Read` on a memfd: EPERM).
+                if let Err(e) = &d.res {
+                    let legit = !self.iour && matches!(rec.kind, Kind::ReadF(..)) && *e == libc::EPERM;
+                    if !legit {
+                        ex.fail(
+                            "C02:push-fabricated-error",
+                            format!("op {id} ({:?}): push returned Ready(Err({e})) for a valid descriptor; the OS never produced that error for this operation", rec.kind),
+                        );
+                    }
+                }
                 rec.done = true;
                 self.ops.insert(id, rec);
                 let s = self.account(id, d, ex);
@@ -1550,6 +1563,42 @@ fn gen_overflow(rng: &mut Rng, idx: usize) -> Case {
     Case { name: format!("ovf{idx}"), lines }
 }
 
+/// more receives than submission-queue entries on IDLE sockets: nothing in flight can complete while the
+/// overflow loop of `push_raw` runs, every push must still be `Pending`; then data arrives in shuffled order
+fn gen_idle_burst(rng: &mut Rng, idx: usize) -> Case {
+    let cap = *rng.pick(&[1u32, 1, 2, 2, 4]);
+    let fut = if rng.chance(1, 4) { " fut" } else { "" };
+    let n = rng.range(cap as u64 + 1, cap as u64 + 4) as usize;
+    let mut lines = vec![format!("cfg iour {cap}{fut}")];
+    for c in 0..n {
+        lines.push(format!("{} {c}", if rng.chance(1, 2) { "sock" } else { "rpipe" }));
+    }
+    if rng.chance(1, 2) {
+        lines.push("settle".into());
+    }
+    for c in 0..n {
+        let op = if lines[1 + c].starts_with("sock") { "recv" } else { "read" };
+        lines.push(format!("push {c} {op} {c} {}", rng.range(1, 4)));
+        if rng.chance(1, 3) {
+            lines.push(format!("waker {c}"));
+        }
+    }
+    lines.push("settle".into());
+    let mut order: Vec<usize> = (0..n).collect();
+    for i in (1..order.len()).rev() {
+        let j = rng.below(i as u64 + 1) as usize;
+        order.swap(i, j);
+    }
+    for (i, c) in order.iter().enumerate() {
+        lines.push(format!("feed {c} {:02x}{:02x}", 0x10 + i, 0x30 + i));
+        if rng.chance(1, 2) {
+            lines.push("settle".into());
+        }
+    }
+    lines.push("settle".into());
+    Case { name: format!("idle{idx}"), lines }
+}
+
 /// the multi-descriptor operation (Splice) with the two ends becoming ready in either order
 fn gen_splice(rng: &mut Rng, idx: usize, order: u64) -> Case {
     let mut lines = vec!["cfg poll 1024".to_string(), "rpipe 0".into(), "wpipe 1".into(), "fill 1".into()];
@@ -1758,6 +1807,9 @@ fn generate(tier: &str, rng: &mut Rng) -> Vec<Case> {
     }
     for i in 0..20 * scale {
         cases.push(gen_splice(&mut rng.fork(), i, (i % 2) as u64));
+    }
+    for i in 0..80 * scale {
+        cases.push(gen_idle_burst(&mut rng.fork(), i));
     }
     for i in 0..60 * scale {
         cases.push(gen_jobs(&mut rng.fork(), i));
